@@ -235,41 +235,83 @@ def r20_4(ctx):
             r.violate(db.name, "store:source_closed", db.where(bi), "source closed while other senders may still exist")
     if not closes:
         r.violate(db.name, "store:source_closed", db.where(0), "last sender drop never closes the source")
-    # drain before EOS in SampleStreamTrack::recv
-    recv = None
-    for b in ctx.facts.bodies(pred=lambda n: n.startswith("<media::track::SampleStreamTrack as ") and n.endswith("::recv::{closure#0}")):
-        recv = b
-    if recv is None:
-        raise core.CheckerError("R20.4: SampleStreamTrack::recv body not found")
-    r.scope.append(recv.name)
+    # end of stream: reported only when the queue was observed empty AFTER `closed` was observed true (a sample pushed
+    # and the source closed between the two reads must not be lost), and the consumer registers its waiter before it
+    # looks at the state (the closing side uses notify_waiters(), which stores no permit).
+    for fn, closed_field, eos_pred in (
+            ("<media::track::SampleStreamTrack as media::track::MediaStreamTrack>::recv::{closure#0}", "source_closed",
+             lambda v: v[0] == "agg" and v[2] == "Err" and mir.has(v, lambda x: x[0] == "agg" and x[2] == "EndOfStream")),
+            ("media::pipeline::SampleQueueReceiver::recv::{closure#0}", "closed",
+             lambda v: v[0] == "agg" and v[1].endswith("option::Option") and v[2] == "None")):
+        tb = ctx.body(fn)
+        r.scope.append(tb.name)
+        loads = [bi for bi, t, p in tb.calls() if p and p.endswith("::load") and t["a"] and mir.has_field(tb.term_operand(t["a"][0]), closed_field)]
+        empties = [bi for bi, t, p in tb.calls() if p and p.endswith(("SpscRing::<T>::pop", "SpscRing::<T>::is_empty"))]
 
-    def drained(term, meaning, *_):
-        if term[0] == "discr" and mir.has(term[1], lambda x: x[0] == "call" and x[1] == POP) and meaning == "None":
-            return True
-        if term[0] == "call" and term[1].endswith("SpscRing::<T>::is_empty") and meaning is True:
-            return True
-        if core.is_atomic_load(term, "ended") and meaning is True:
-            return True
-        return False
-    g = core.guard_edges(recv, drained)
-    eos = core.aggregates(recv, lambda a: a.endswith("MediaError"), "EndOfStream")
-    r.need("EndOfStream sites in recv", len(eos), 3)
-    for bi, si, s in eos:
-        if core.k1(recv, [bi], g)[bi] is None:
-            r.ok({"site": recv.where(bi, si), "EndOfStream only after": "pop()==None / is_empty() / already ended"})
+        def closed_true(term, meaning, *_, f=closed_field):
+            t, neg = term, False
+            if t[0] == "un" and t[1] == "Not":
+                t, neg = t[2], True
+            return core.is_atomic_load(t, f) and isinstance(meaning, bool) and (meaning is not neg)
+
+        def observed_empty(term, meaning, *_):
+            if term[0] == "call" and term[1].endswith("SpscRing::<T>::is_empty") and meaning is True:
+                return True
+            return term[0] == "discr" and term[1][0] == "call" and term[1][1].endswith("SpscRing::<T>::pop") and meaning == "None"
+        g_closed = core.guard_edges(tb, closed_true)
+        g_empty = core.guard_edges(tb, observed_empty)
+        eos = []
+        for bi, si, st in tb.assigns():
+            if st["p"]["l"] == 0 and "p" not in st["p"] and eos_pred(tb.term_rvalue(st["rv"])):
+                eos.append(bi)
+        if fn.startswith("<media::track"):
+            ended = lambda term, meaning, *_: core.is_atomic_load(term, "ended") and meaning is True
+            g_ended = core.guard_edges(tb, ended)
         else:
-            r.violate(recv.name, "agg:EndOfStream", recv.where(bi, si), "end-of-stream reported without observing the queue empty")
-    # `ended` is set only after the queue was observed empty (or by stop())
-    def drained2(term, meaning, *_):
-        if term[0] == "discr" and mir.has(term[1], lambda x: x[0] == "call" and x[1] == POP) and meaning == "None":
-            return True
-        return term[0] == "call" and term[1].endswith("SpscRing::<T>::is_empty") and meaning is True
-    g2 = core.guard_edges(recv, drained2)
-    for bi, t, args in core.atomic_sites(recv, "ended", "store"):
-        if core.k1(recv, [bi], g2)[bi] is None:
-            r.ok({"site": recv.where(bi), "ended.store(true) only after": "queue observed empty"})
-        else:
-            r.violate(recv.name, "store:ended", recv.where(bi), "track marked ended before the queue was drained")
+            g_ended = []
+        n_eos = 0
+        for bi in eos:
+            if g_ended and core.k1(tb, [bi], g_ended)[bi] is None:
+                r.ok({"site": tb.where(bi), "eos": "sticky `ended` flag"})
+                continue
+            n_eos += 1
+            cut_c = g_closed and core.k1(tb, [bi], g_closed, fresh_per_iteration=True)[bi] is None
+            cut_e = g_empty and core.k1(tb, [bi], g_empty, fresh_per_iteration=True)[bi] is None
+            # order: no closed-load may reach this return without passing an emptiness observation afterwards
+            order = True
+            for lb in loads:
+                if bi in tb.reachable([t for t, _ in tb.succ_edges(lb)], cut_edges=tb.back_edges()):
+                    if tb.path_to([t for t, _ in tb.succ_edges(lb)], bi, cut_edges=tb.back_edges(), cut_blocks=set(empties)) is not None:
+                        order = False
+            if cut_c and cut_e and order:
+                r.ok({"site": tb.where(bi), "eos": "closed read, THEN queue observed empty"})
+            elif cut_c and cut_e:
+                r.violate(tb.name, "eos:order", tb.where(bi),
+                          "end of stream is decided on an emptiness observation made BEFORE `%s` was read: a sample pushed and the "
+                          "last sender dropped in between is reported as end of stream and never delivered" % closed_field)
+            else:
+                r.violate(tb.name, "eos", tb.where(bi), "end of stream reported without (closed && queue observed empty)")
+        r.need("end-of-stream returns in %s" % fn.split("::")[-3], n_eos, 1)
+        # waiter registered before the state is examined
+        regs = [bi for bi, t, p in tb.calls() if p and p.endswith("Notify::notified")]
+        if not regs:
+            raise core.CheckerError("R20.4: no Notify::notified() in %s" % fn)
+        yields = [i for i, blk in enumerate(tb.blocks) if blk["t"]["k"] == "yield"]
+        for rb in regs:
+            # the first suspension after the registration must be preceded by a re-check of `closed`
+            p_ = None
+            for y in yields:
+                if y in tb.reachable([t for t, _ in tb.succ_edges(rb)], cut_edges=tb.back_edges()):
+                    q = tb.path_to([t for t, _ in tb.succ_edges(rb)], y, cut_edges=tb.back_edges(), cut_blocks=set(loads))
+                    if q is not None:
+                        p_ = q
+            if p_ is None:
+                r.ok({"site": tb.where(rb), "waiter": "created before `%s` is checked; no suspension before that check" % closed_field})
+            else:
+                r.violate(tb.name, "wait:lost-wakeup", tb.where(rb),
+                          "the task can suspend on the Notified future without having re-checked `%s` after creating it: a close "
+                          "(notify_waiters stores no permit) that landed before the future existed wakes nobody and recv() waits for ever" % closed_field,
+                          core.describe_path(tb, p_))
     return r
 
 
